@@ -322,3 +322,9 @@ def lists_unchanged_but(ctx, *lsts):
             continue
         conj.append(forall([r], z3.Implies(z3.And(r > 0, r < old.alloc, *[r != l_.t for l_ in lsts]), z3.Select(now, r) == z3.Select(then, r)), patterns=[z3.Select(now, r)]))
     return mk_bool(z3.And(*conj) if conj else z3.BoolVal(True))
+
+
+@specfn('plain_name')
+def plain_name(ctx, s):
+    """a name that Equation.__init__ takes as it is: no '#' (start of a description) and no '=' (start of an expression)"""
+    return mk_bool(z3.And(z3.Not(z3.Contains(s.t, z3.StringVal('#'))), z3.Not(z3.Contains(s.t, z3.StringVal('=')))))
